@@ -306,6 +306,10 @@ pub enum KeySource {
     DkgRefreshed,
     /// dealer keys where one participant's key package was lost and repaired by t helpers
     Repaired,
+    /// a key-lifecycle history: base keys (dealer or DKG) followed by up to four operations from
+    /// {dealer refresh, distributed refresh, repair of one participant, encode/decode of every package};
+    /// the code selects base and operations, 0 = derive the code from the case seed
+    History(u16),
 }
 impl KeySource {
     pub fn name(self) -> &'static str {
@@ -316,10 +320,12 @@ impl KeySource {
             KeySource::DealerRefreshed => "dealer+refresh",
             KeySource::DkgRefreshed => "dkg+refresh",
             KeySource::Repaired => "dealer+repair",
+            KeySource::History(_) => "history",
         }
     }
+    /// sources whose cost grows like a DKG (quadratic in n): generators bound n for them
     pub fn uses_dkg(self) -> bool {
-        matches!(self, KeySource::Dkg | KeySource::DkgRefreshed)
+        matches!(self, KeySource::Dkg | KeySource::DkgRefreshed | KeySource::History(_))
     }
 }
 
@@ -493,8 +499,67 @@ pub fn make_keys<C: Suite>(shape: Shape, ids: IdSpec, source: KeySource, seed: u
             k.source = source;
             Ok(k)
         }
+        KeySource::History(code) => history_keys::<C>(shape, ids, code, seed, key),
         s => dealer_keys::<C>(shape, ids, s, seed, key),
     }
+}
+
+pub const HISTORY_OPS: [&str; 5] = ["end", "dealer-refresh", "distributed-refresh", "repair", "encode-decode"];
+
+/// decode a history code: (base is DKG, operations)
+pub fn history_ops(code: u16, seed: u64) -> (bool, Vec<u8>) {
+    let code = if code == 0 { 1 + (crate::engine::fnv(&format!("history/{seed}")) % 1249) as u16 } else { code };
+    let base_dkg = (code / 625) & 1 == 1;
+    let mut c = code % 625;
+    let mut ops = Vec::new();
+    for _ in 0..4 {
+        ops.push((c % 5) as u8);
+        c /= 5;
+    }
+    // "end" digits are skipped (not terminators) so that most codes give 3-4 operations
+    ops.retain(|o| *o != 0);
+    if ops.is_empty() {
+        ops.push(1 + (seed % 4) as u8);
+    }
+    (base_dkg, ops)
+}
+
+pub fn history_keys<C: Suite>(shape: Shape, ids: IdSpec, code: u16, seed: u64, key: &str) -> Result<Keys<C>, Failure> {
+    let (base_dkg, ops) = history_ops(code, seed);
+    let mut k = if base_dkg { dkg_keys::<C>(shape, ids, seed, key)? } else { dealer_keys::<C>(shape, ids, KeySource::Dealer, seed, key)? };
+    let vk0 = *k.pubkeys.verifying_key();
+    for (i, op) in ops.iter().enumerate() {
+        let s = seed ^ (0x4157 + i as u64).wrapping_mul(0x9e37_79b9_7f4a_7c15);
+        match op {
+            1 => refresh_all::<C>(&mut k, false, s, key)?,
+            2 => refresh_all::<C>(&mut k, true, s, key)?,
+            3 => {
+                // the repaired participant rotates with the step
+                let pos = (s >> 20) as usize % k.ids.len();
+                repair_at::<C>(&mut k, pos, s, key)?
+            }
+            _ => {
+                // every package goes through its wire encoding
+                let mut kps = BTreeMap::new();
+                for (id, kp) in &k.kps {
+                    let b = kp.serialize().map_err(|e| Failure { key: format!("{key}/history"), msg: format!("key package does not serialize: {e:?}") })?;
+                    let kp2 = KeyPackage::<C>::deserialize(&b).map_err(|e| Failure { key: format!("{key}/history"), msg: format!("key package does not deserialize after {:?}: {e:?}", &ops[..i]) })?;
+                    kps.insert(*id, kp2);
+                }
+                let b = k.pubkeys.serialize().map_err(|e| Failure { key: format!("{key}/history"), msg: format!("public key package does not serialize: {e:?}") })?;
+                k.pubkeys = PublicKeyPackage::<C>::deserialize(&b).map_err(|e| Failure { key: format!("{key}/history"), msg: format!("public key package does not deserialize: {e:?}") })?;
+                k.kps = kps;
+            }
+        }
+        if *k.pubkeys.verifying_key() != vk0 {
+            return fail(&format!("{key}/history-changes-group-key"), format!("the group key changed in step {i} ({}) of history {:?}", HISTORY_OPS[*op as usize], ops.iter().map(|o| HISTORY_OPS[*o as usize]).collect::<Vec<_>>()));
+        }
+    }
+    k.secret_shares = None;
+    k.signing_key = None;
+    k.dkg = None;
+    k.source = KeySource::History(code);
+    Ok(k)
 }
 
 /// one honest refresh of ALL participants (nobody removed); replaces key packages and public key package
@@ -542,13 +607,19 @@ pub fn refresh_all<C: Suite>(k: &mut Keys<C>, dkg_refresh: bool, seed: u64, key:
 
 /// the participant with the highest identifier loses its key package and repairs it with the t lowest helpers
 pub fn repair_one<C: Suite>(k: &mut Keys<C>, seed: u64, key: &str) -> Result<(), Failure> {
+    let last = k.ids.len() - 1;
+    repair_at::<C>(k, last, seed, key)
+}
+
+/// the participant at position `pos` loses its key package and repairs it with the first t other participants
+pub fn repair_at<C: Suite>(k: &mut Keys<C>, pos: usize, seed: u64, key: &str) -> Result<(), Failure> {
     use frost_core::keys::repairable::{repair_share_part1, repair_share_part2, repair_share_part3, Delta, Sigma};
     let t = k.shape.t as usize;
     if k.ids.len() <= t {
-        return Ok(()); // no room for t helpers next to the repaired participant: plain dealer keys
+        return Ok(()); // no room for t helpers next to the repaired participant: nothing happens
     }
-    let target = *k.ids.last().unwrap();
-    let mut helpers: Vec<Id<C>> = k.ids[..t].to_vec();
+    let target = k.ids[pos % k.ids.len()];
+    let mut helpers: Vec<Id<C>> = k.ids.iter().filter(|i| **i != target).take(t).copied().collect();
     helpers.reverse();
     let mut deltas: BTreeMap<Id<C>, BTreeMap<Id<C>, Delta<C>>> = BTreeMap::new();
     for (j, h) in helpers.iter().enumerate() {
